@@ -36,7 +36,10 @@ CHECKS.update({
   'text': 'The due rule and the no-drift arithmetic of stimer (C) and timer_head (C++, extracted) are proved loop-free for the full 64-bit domain; the scheduler clauses (pending list '
           'sorted by deadline and equal to the planned set after every plan(); callbacks never early, in deadline order, re-armed at previous deadline + interval, unplanned never fires, no due '
           'timer left after exec, empty()/minimal_interval() agree with the reference) are BOUNDED stand-ins on the real extracted timer_manager, inductive in the history (one operation from '
-          'every sorted pending list of <= 2 timers; exec in the thorough tier). Arithmetic part: '
+          'every sorted pending list of <= 2 timers; whole exec calls in the thorough tier). The loop of exec(now) is covered by its INDUCTIVE STEP (unit manager_exec_step, quick tier): from every '
+          'sorted, well-linked pending list of <= 2 (3 thorough) timers with arbitrary starts, intervals and now, one iteration fires exactly the head timer, which is due and has the smallest deadline, '
+          're-arms it at deadline + interval (or drops it when its callback unplans it), restores the invariant and leaves every pending deadline >= the fired one - so ordering, never-early and '
+          'catch-up hold for ANY number of firings in one exec (the bound is the list length only). Arithmetic part: '
           '(within the no-overflow range): due exactly from start+interval on, never before; shift/swift re-arms at exactly previous deadline + interval; an '
           'unplanned stimer never fires. For unbounded timer counts the ordering clauses are not decided (sortedness of an unbounded intrusive list is not expressible in CBMC '
           'contracts); std::find_if + lambda is mapped by an extraction rule onto the first-match loop over the intrusive iterator, virtual execute() onto a recording callback.',
@@ -48,7 +51,8 @@ CHECKS.update({
           'are unwound completely. Data is an exact-size object, so any read outside [data, data+length) fails. Table-driven == bit-serial, piecewise == one-shot '
           'and the CRC-8 residue lemma are separate obligations.',
   'ref': 'C17', 'technique': 'CBMC loop contracts with ghost co-simulation against a bit-serial CRC reference',
-  'note': 'Alignment cannot be decided by CBMC (native UBSan evidence only). Known finding kept open: igris_crc32 in pieces that are not multiples of 4 differs from '
+  'note': 'Alignment: cbmc has no alignment check; igris_crc32 (the only routine with word accesses) is proved for messages at every offset 0..3 inside their object and, as a BOUNDED stand-in, '
+          'run natively under UBSan on 4 misaligned sample messages in every check (native probes). Known finding kept open: igris_crc32 in pieces that are not multiples of 4 differs from '
           'one shot (inherent in its word-wise definition; a repair would change existing checksums). Little-endian model.'},
 })
 
@@ -59,10 +63,10 @@ CHECKS.update({
           'operation does (ghost index over the view and over the buffer): putc/getc/read/write are FIFO, lossless and byte-transparent for all 256 values, full/empty '
           'reject without change, avail + room == size - 1, indices stay in [0,size). ring_read/ring_write/ring_for_each loops are closed by injected invariants. The typed '
           'igris::ring<T> and cyclic_buffer<T> (extracted to C at T = char) are proved consistent with their backing array and their relative accessors (last, fixup_index, '
-          'distance, set_last_index, i-th previous sample) address the reference elements for every head position.',
+          'distance, set_last_index, i-th previous sample, get_last for every offset/count/order with the window inside one lap) address the reference elements for every head position.',
   'ref': 'C03', 'technique': 'CBMC full-domain contracts + loop contracts on ring.h / ring_counter.h; cxx2c-extracted igris::ring and cyclic_buffer',
   'note': 'Induction over operation histories is the usual meta-argument. Assumptions (call-site preconditions): bias <= size, size <= 2^31 for the int-returning bulk '
-          'operations, near-range arguments for the fix-up loops. get_last / emplace / non-trivial element lifetimes of the typed ring are not under contract (PROPERTY.json).'},
+          'operations, near-range arguments for the fix-up loops. emplace / non-trivial element lifetimes of the typed ring are not under contract (PROPERTY.json).'},
 })
 CHECKS.update({
  'C01': {
@@ -72,7 +76,7 @@ CHECKS.update({
           'ensures = the local shape of the reference (std::list-like) result, an exact frame over all link fields, LINKED at every touched node and at an arbitrary third-party '
           'node, self-link / poison of removed nodes and "removing it again is harmless". Additional function contracts are enforced with --dfcc (cbmc-checked assigns clauses).',
   'ref': 'C01', 'technique': 'CBMC local contracts over a symbolic node pool (frame + third-party preservation), dfcc-enforced function contracts; cxx2c-extracted C++ nodes',
-  'note': 'Sequence-level clauses (traversal yields the reference sequence, size/membership agree) are bounded stand-ins on rings of <= 5 nodes (6 thorough), labelled bounded: the '
+  'note': 'Sequence-level clauses (traversal yields the reference sequence, size/membership agree; ~dlist_base leaves every node of the list unlinked) are bounded stand-ins on rings of <= 5 nodes (6 thorough), labelled bounded: the '
           'traversal functions walk an unbounded inductive structure that CBMC contracts cannot describe. The lifting from local splice + frame to the sequence and the induction over '
           'histories are meta-arguments. The dlist<T,member> template wrappers and iterators are thin forwards and not extracted.'},
  'C14': {
@@ -109,7 +113,8 @@ CHECKS.update({
           'clauses (within one unit of the last digit / a few ulps of strtod) relate floats to real decimal values and are NOT decidable with CBMC: not claimed.',
   'ref': 'C12', 'technique': 'CBMC bit-precise IEEE-754 reasoning with loop invariants (0 <= f < 1 for the fraction loop); lexical co-simulation of the parsers',
   'note': 'Open known findings (not small repairs): values with |f| >= 2^31 render as garbage (int32 cast), igris_atof32 has no exponent support and overflows with >= 19 fraction digits, '
-          'debug_printdec_double_prec prints wrong fraction digit counts / overflows for large values and precisions. See units/C12/PROPERTY.json.'},
+          'debug_printdec_double_prec prints wrong fraction digit counts / overflows for large values and precisions. Decimal exponents beyond the range of double are covered by 4 native probes '
+          '(bounded stand-in), not by the proof. See units/C12/PROPERTY.json.'},
 })
 CHECKS.update({
  'C06': {
